@@ -52,6 +52,80 @@ theorem rejected_unchanged (g : Graph) (m : Msg) (r : Reject) (h : (Impl.applyMs
 example : ∃ g m r, (Impl.applyMsg g m).2 = .reject r :=
   ⟨Graph.empty, .nodeAnn ⟨1, 5, 0, true, true⟩, .noChannelsForNode, rfl⟩
 
+/-- handle_network_update (the guards are translated from its two match arms): a payment-failure report becomes a
+    removal iff it is PERMANENT; a non-permanent report leaves every graph exactly as it was. -/
+theorem network_update_acts_iff_permanent (g : Graph) (now : Nat) :
+    (∀ scid p, Impl.handleNetworkUpdate g (.channelFailure scid p) now
+        = if p then (Impl.step g (.failPermanent scid now)).1 else g) ∧
+    (∀ id p, Impl.handleNetworkUpdate g (.nodeFailure id p) now
+        = if p then (Impl.step g (.nodeFailPermanent id now)).1 else g) := by
+  constructor <;> intro x p <;> cases p <;> rfl
+
+example : ∃ g scid now, Impl.handleNetworkUpdate g (.channelFailure scid true) now ≠ g ∧
+    Impl.handleNetworkUpdate g (.channelFailure scid false) now = g :=
+  ⟨(Impl.step Graph.empty (.msg (.chanAnn ⟨7, 1, 2, false, true, true, true, true, true, true, .noLookup, 100⟩))).1, 7, 200,
+   by intro h
+      have : (Impl.handleNetworkUpdate (Impl.step Graph.empty (.msg (.chanAnn ⟨7, 1, 2, false, true, true, true, true, true, true, .noLookup, 100⟩))).1 (.channelFailure 7 true) 200).channels.get 7
+          = ((Impl.step Graph.empty (.msg (.chanAnn ⟨7, 1, 2, false, true, true, true, true, true, true, .noLookup, 100⟩))).1).channels.get 7 := by rw [h]
+      revert this; decide,
+   rfl⟩
+
+/-! ### which signature is checked against which key (round 5)
+   `Gen.chanAnnSigChecks` / `Gen.nodeAnnSigChecks` (Generated/GossipSig.lean) are the (signature field, key field)
+   pairs translated from the secp_verify_sig! statements of gossip.rs::verify_channel_announcement /
+   verify_node_announcement on every run; the enumerations CaSig / CaKey come from the `Signature` / `NodeId`
+   fields of the message structs in msgs.rs. `verifyChanAnn` evaluates that list and is what `Impl.applyChanAnn`
+   and the asynchronous gate `Async.annGate` (= what the driver runs) call. Signatures are identities
+   (who signed, over this message's digest or not): the ECDSA assumption. -/
+
+/-- For EVERY wire-level channel_announcement (any holders of the four announced keys, any four signers, each
+    signature over this message's digest or over anything else): verify_channel_announcement accepts iff each of
+    the four signatures was made over this message by the holder of the key announced for it — node_signature_i
+    by node_id_i, bitcoin_signature_i by bitcoin_key_i. A check against the wrong field, a duplicated or a
+    dropped check in the Rust text makes this statement false (the build breaks). -/
+theorem channel_announcement_signature_checks_exact (w : CaWire) :
+    verifyChanAnn w = true ↔ ∀ s : Gen.CaSig, (w.sig s).overThis = true ∧ (w.sig s).signer = w.key s.ownKey := by
+  rw [Impl.verifyChanAnn_iff]
+  simp only [SigBy.verifies, Bool.and_eq_true, beq_iff_eq]
+
+example : ∃ w : CaWire, verifyChanAnn w = false ∧
+    ∀ s : Gen.CaSig, s ≠ .bitcoin_signature_2 → (w.sig s).verifies (w.key s.ownKey) = true :=
+  -- only bitcoin_signature_2 is made by somebody else (by the holder of bitcoin_key_1, even)
+  ⟨⟨fun | .node_id_1 => .node 1 | .node_id_2 => .node 2 | .bitcoin_key_1 => .btc 0 | .bitcoin_key_2 => .btc 1,
+    fun | .node_signature_1 => ⟨.node 1, true⟩ | .node_signature_2 => ⟨.node 2, true⟩
+        | .bitcoin_signature_1 => ⟨.btc 0, true⟩ | .bitcoin_signature_2 => ⟨.btc 0, true⟩⟩,
+   by decide, by intro s hs; cases s <;> first | rfl | exact absurd rfl hs⟩
+
+/-- node_announcement: accepted by verify_node_announcement iff signed over this message by the announced node_id -/
+theorem node_announcement_signature_check_exact (w : NaWire) :
+    verifyNodeAnn w = true ↔ ∀ s : Gen.NaSig, (w.sig s).overThis = true ∧ (w.sig s).signer = w.key s.ownKey := by
+  rw [Impl.verifyNodeAnn_iff]
+  simp only [SigBy.verifies, Bool.and_eq_true, beq_iff_eq]
+
+example : ∃ w : NaWire, verifyNodeAnn w = false :=
+  ⟨⟨fun | .node_id => .node 1, fun | .signature => ⟨.node 2, true⟩⟩, by decide⟩
+
+/-- Any graph, any channel_announcement delivered through the verifying entry point in which AT LEAST ONE of the
+    four signatures (whichever) is not made by its own announced key: the graph is unchanged and the answer is a
+    rejection. (The reject reason is `badSig` unless the pre-check already refused the message.) -/
+theorem forged_channel_announcement_rejected (g : Graph) (a : ChanAnn) (s : Gen.CaSig)
+    (hv : a.verify = true) (hs : a.flag s = false) :
+    (Impl.applyChanAnn g a).1 = g ∧ ∃ r, (Impl.applyChanAnn g a).2 = .reject r := by
+  have hno : Impl.chanAnnSigsVerify a = false := by
+    cases h : Impl.chanAnnSigsVerify a
+    · rfl
+    · unfold Impl.chanAnnSigsVerify at h
+      have := (Impl.verifyChanAnn_iff a.wire).1 h s
+      rw [Impl.ChanAnn.wire_verifies, hs] at this
+      exact absurd this (by decide)
+  unfold Impl.applyChanAnn
+  cases Impl.chanAnnPre g a with
+  | some r => simp
+  | none => simp [hv, hno]
+
+example : ∃ g a s, a.verify = true ∧ a.flag s = false ∧ (Impl.applyChanAnn g a).2 = .reject .badSig :=
+  ⟨Graph.empty, ⟨7, 1, 2, false, true, true, true, true, true, false, .noLookup, 100⟩, .bitcoin_signature_2, rfl, rfl, by decide⟩
+
 /-! ## currency -/
 
 /-- One operation (any of the seven kinds) on any graph: if the channel entry is there before and
